@@ -29,6 +29,18 @@ CHECKS = {
         note="Assumes: DataFrame column store contract (ColumnStore stub, 2 symbolic rows), adsorbate/material contract stubs, "
              "real arithmetic for floats, induction over histories as meta-argument. c_* bodies are inlined (real, lifted).",
         technique="symbolic execution of the real methods on object.__new__ instances + z3; invariant preservation"),
+    'C03': dict(
+        category='proof',
+        text="Accessor contract: every number returned by pressure/loading/pressure_at/loading_at (both isotherm classes) "
+             "has the same SI value under the (documented completion of the) requested representation as the stored "
+             "datum under the stored one -- proved by symbolic execution for stored x requested representations with "
+             "symbolic data; quantities supplied in foreign units reach the interpolator/model in the stored "
+             "representation; incomplete or invalid requests are refused. Branch/limit selection, interpolator call site, "
+             "interp1d-linear clauses and split_ads_data (n<=5, five row labelings) are shape-bounded obligations.",
+        design_ref='§3 C03, Appendix A.2',
+        note="Assumes the pandas API contract of pgv.pdstub, the interp1d contract stub, models as uninterpreted functions, "
+             "real arithmetic. Known findings: fraction/percent quantities combined with a material-basis request.",
+        technique="symbolic execution of the real accessors + z3 against the SI spec; relational lemma to permanent conversion"),
 }
 
 NOT_YET = {
